@@ -34,6 +34,8 @@ inductive FE where
   | protoOf (e : FE)                                -- Object.getPrototypeOf(e)
   | regex                                           -- the regular expression literal /x/
   | fcc (n : Nat)                                   -- String.fromCharCode(n)
+  | accFn (isSet : Bool) (f : FE)                   -- Object.getOwnPropertyDescriptor({get p() {…}}, "p").get  (or set p(v) / .set):
+                                                    --   the accessor function an object initialiser creates HERE
   | fnCtor (f : FE)                                 -- Function("<body of f>") for a parameterless, nameless f
   | wproto (k : String)                             -- String.prototype / Number.prototype / Boolean.prototype / Object.prototype
   | defAcc (o : FE) (p : String) (t : String)       -- Object.defineProperty(o, "p", {get: <logs G t, returns "v"+t>,
